@@ -17,7 +17,7 @@ Decided structurally (each a necessary condition of the behaviour):
 Not decided: what the file-system calls do on disk; the lifecycle's restore model.
 """
 from .lib.effects import Effects, outcomes, MUTATING, REMOVING
-from .lib.paths import LayerPaths, cls_str, strip
+from .lib.paths import LayerPaths, cls_str, strip, sbom_formats_covered
 from .lib.value import vstr, walk
 
 CL = r'^libcnb::build::BuildContext::<B>::cached_layer$'
@@ -236,19 +236,11 @@ def run(ctx, rep):
                     rep.check(last_rm < first_mk, 'R3', tag + '/order', site_where, 'removal precedes re-creation',
                               're-creation happens before the removal is complete')
                 # R5: SBOM files of every format
-                rm_sbom = [e for e in has(after, {'REMOVE_FILE'}, is_sbom) if e.forall is not None]
-                covered = False
-                detail = 'no REMOVE_FILE on <layer>.sbom.* after the decision'
-                if rm_sbom:
-                    e = rm_sbom[0]
-                    fmtv = strip(klass(e)[1])
-                    coll = strip(e.forall)
-                    # the removed format must be the loop element of a collection that lists every format
-                    listed_here = sorted(x[2] for x in walk(coll) if x[0] == 'agg' and (x[1] or '').endswith('SbomFormat'))
-                    all_variants = sorted(v['name'] for v in prog.adt('libcnb_data::sbom::SbomFormat')['variants'])
-                    is_elem = any(x[0] == 'call' and x[1] == 'std::iter::Iterator::next' for x in walk(fmtv))
-                    covered = listed_here == all_variants and is_elem
-                    detail = 'forall element of %s' % listed_here
+                rm_sbom = has(after, {'REMOVE_FILE'}, is_sbom)
+                all_variants = sorted(v['name'] for v in prog.adt('libcnb_data::sbom::SbomFormat')['variants'])
+                got = sorted(sbom_formats_covered(rm_sbom, lambda pv: LP.classify(pv) if pv is not None else None))
+                covered = got == all_variants
+                detail = ('REMOVE_FILE on <layer>.sbom.* for formats %s' % got) if rm_sbom else 'no REMOVE_FILE on <layer>.sbom.* after the decision'
                 rep.check(covered, 'R5', tag + '/SBOM', site_where, 'SBOM files removed for all formats (%s)' % detail,
                           'a layer reported empty keeps the SBOM files of the previous build: %s' % detail,
                           {'row': r, 'must': summary['must']})
